@@ -117,6 +117,8 @@ class Contract:
     local_types: Dict[str, Ty] = field(default_factory=dict)  # declared types of locals that start as untyped empties (set(), dict(), OrderedDict())
     fresh_result: bool = False  # the returned object is newly allocated (proved as an obligation, used for distinctness at call sites)
     init_fields: Optional[Callable] = None  # __init__ contracts: (ctx) -> {field: initial value}; used for parallel allocation
+    body_select: Optional[Callable] = None  # region contract: (FunctionDef) -> the statements (a suffix of the real body) that are executed; the parameters are
+    #                                         then the values of the same-named variables at the region's entry, constrained by `requires`
 
 
 class Registry:
@@ -534,7 +536,12 @@ def generate_vcs(reg: Registry, c: Contract, S: Optional[Sorts] = None) -> Tuple
         # vacuity: the precondition must be satisfiable
         vcs.append(VC("%s.precondition-satisfiable%s" % (c.key, tag), "SAT?", list(st.pc), tag))
         old_ghost = dict(st.ghost)
-        outs = eng.exec_block(fn.body, st)
+        body = fn.body
+        if c.body_select is not None:
+            body = c.body_select(fn)
+            if not body:
+                raise Unsupported("region of %s not found in the current source" % c.key)
+        outs = eng.exec_block(body, st)
         for (s2, o) in outs:
             info["paths"] += 1
             if o is None:
